@@ -129,7 +129,7 @@ Theorem C10_serve_state_reads_never_blocked : forall ds ks tr s i k,
 Proof. exact serve_reads_enabled. Qed.
 Print Assumptions C10_serve_state_reads_never_blocked.
 
-(* The pinned design (fixed by 039625e): Close and sendError took the state
+(* The pinned design (fixed by 0020d0b): Close and sendError took the state
    mutex after the output lock and kept it while writing the closing tag.  The
    statement "a Serve that has input to read can read it" is false of it:
    witness — the peer stops reading, Close sets the bit and waits in its write
